@@ -768,3 +768,92 @@ def report_sorted_check(ctx):
     if st['failures']:
         ctx.violation('sorted() did not return a sorted permutation of its input (assumption of the C14/C03/C15 theorems)',
                       {'assumption': 'C14_sorted_needs_only_sorted_permutation', 'calls': st['failures']}, found=False)
+
+
+# ------------------------------------------------------------------------------------ several notations of one value
+
+def alt_micheline(t, v):
+    """Micheline of v in ANOTHER notation pytezos accepts for the same value (or None when v has only one):
+    signature sig <-> edsig (96 bytes: optimized bytes), address '%default' suffix / optimized bytes, key / key_hash /
+    chain_id optimized bytes, timestamp RFC3339 text; the first leaf that has an alternative inside pair / option / or."""
+    import datetime
+    n, k = t[0], v[0]
+    if n == 'pair':
+        a = alt_micheline(t[1], v[1])
+        if a is not None:
+            return {'prim': 'Pair', 'args': [a, value_micheline(v[2])]}
+        b = alt_micheline(t[2], v[2])
+        return None if b is None else {'prim': 'Pair', 'args': [value_micheline(v[1]), b]}
+    if n == 'option':
+        if k != 'some':
+            return None
+        a = alt_micheline(t[1], v[1])
+        return None if a is None else {'prim': 'Some', 'args': [a]}
+    if n == 'or':
+        a = alt_micheline(t[1] if k == 'left' else t[2], v[1])
+        return None if a is None else {'prim': 'Left' if k == 'left' else 'Right', 'args': [a]}
+    if n == 'signature':
+        if len(v[1]) != 64:
+            return {'bytes': v[1].hex()}
+        return {'string': sig_text(v[1], 'edsig' if v[2] == 'sig' else 'sig')}
+    if n == 'address':
+        if v[3] is None:
+            return {'string': addr_text(v[1], v[2]) + '%default'}
+        kind, h = v[1], v[2]
+        raw = (b'\x00' + bytes([int(kind[2]) - 1]) + h) if kind.startswith('tz') else (bytes([{'KT1': 1, 'sr1': 3}[kind]]) + h + b'\x00')
+        return {'bytes': (raw + v[3].encode('ascii')).hex()}
+    if n in ('key_hash', 'key'):
+        return {'bytes': (bytes([CURVES.index(v[1])]) + v[2]).hex()}
+    if n == 'chain_id':
+        return {'bytes': v[1].hex()}
+    if n == 'timestamp' and 0 <= v[1] <= 253402300799:
+        return {'string': datetime.datetime.fromtimestamp(v[1], datetime.timezone.utc).strftime('%Y-%m-%dT%H:%M:%SZ')}
+    return None
+
+
+def micheline_src(m) -> str:
+    if isinstance(m, list):
+        return '{ ' + ' ; '.join(_strip(micheline_src(x)) for x in m) + ' }'
+    if 'int' in m:
+        return m['int']
+    if 'string' in m:
+        return '"' + m['string'] + '"'
+    if 'bytes' in m:
+        return '0x' + m['bytes']
+    args = m.get('args') or []
+    return m['prim'] if not args else '(' + m['prim'] + ' ' + ' '.join(micheline_src(a) for a in args) + ')'
+
+
+def _strip(s):
+    return s[1:-1] if s.startswith('(') else s
+
+
+def literal_michelines(t, elems):
+    """Micheline of the elements of a literal; an element equal (as a Michelson value) to its predecessor is written in
+    another notation when the type has one, so that duplicates also come as two spellings of one value."""
+    out = []
+    for i, v in enumerate(elems):
+        m = None
+        if i > 0 and canon(v) == canon(elems[i - 1]):
+            m = alt_micheline(t, v)
+        out.append(m if m is not None else value_micheline(v))
+    return out
+
+
+def literal_elt_srcs(t, elems):
+    return [_strip(micheline_src(m)) for m in literal_michelines(t, elems)]
+
+
+NOTATION_TYPES = [('signature',), ('address',), ('key',), ('key_hash',), ('chain_id',), ('timestamp',),
+                  ('pair', ('signature',), ('int',)), ('option', ('signature',)), ('or', ('address',), ('signature',)),
+                  ('pair', ('nat',), ('key_hash',))]
+
+
+def notation_duplicates(rng):
+    """directed literals: one value twice, the second time in another notation (must be rejected), for every type
+    that has several notations; yields (type, [v, v])"""
+    for t in NOTATION_TYPES:
+        for _ in range(2):
+            v = gen_value(rng, t)
+            if alt_micheline(t, v) is not None:
+                yield t, [v, v]
